@@ -773,9 +773,60 @@ Proof.
     + (* print *)
       simpl. norm_goal R1 R2. rewrite Hev.
       eapply R_local; [exact HR|upds|upds|upds|upds|simpl; auto|simpl; auto| |].
-      * rewrite upd_same. apply fiber_rel_running_intro; simpl; auto.
+      * apply fiber_rel_running_intro; simpl; auto.
       * apply (cap_upd_running s m); auto; upds; simpl; auto.
     + (* set *)
       simpl. norm_goal R1 R2. rewrite Hev.
       eapply R_local; [exact HR|upds|upds|upds|upds|simpl; auto|simpl; auto| |].
-      Show.
+      * apply fiber_rel_running_intro; simpl; auto.
+        unfold slot_of. rewrite Har, Hstk.
+        pose proof (set_nth_local (s_cur s) (s_co s (s_cur s)) [] x (s_eval (s_co s (s_cur s)) e)) as Hl.
+        rewrite !app_nil_r in Hl. exact Hl.
+      * apply (cap_upd_running s m); auto; upds; simpl; auto.
+    + admit.
+    + admit.
+    + admit.
+    + admit.
+    + admit.
+    + (* has_finished *)
+      destruct (fdef_of p k); [|simpl; reflexivity].
+      simpl. norm_goal R1 R2.
+      assert (Hfin : fiber_has_finished (mkVm (Some (s_cur s))
+                 (upd (s_cur s) (set_frames [set_ip (KBody rest) (bframe (s_cur s) (KBody (AHasFinished k :: rest)) (c_fresh (s_co s (s_cur s))))] (fibers (m_vm m) (s_cur s))) (fibers (m_vm m))) (handling (m_vm m))) k
+               = is_done (upd (s_cur s) (set_code rest (s_co s (s_cur s))) (s_co s) k)).
+      { unfold fiber_has_finished; simpl. destruct (Nat.eq_dec k (s_cur s)) as [->|Hk].
+        - rewrite !upd_same. unfold is_done; simpl. rewrite I1. reflexivity.
+        - rewrite !upd_other by auto. pose proof (R4 k) as Hk4. unfold fiber_rel in Hk4. unfold is_done, has_finished.
+          destruct (c_status (s_co s k)) eqn:Est.
+          + destruct Hk4 as (_ & _ & -> & _). reflexivity.
+          + destruct Hk4 as (_ & _ & _ & -> & _). reflexivity.
+          + destruct Hk4 as (_ & _ & _ & _ & t & ex & hfr & _ & -> & _). destruct hfr; reflexivity.
+          + destruct Hk4 as (_ & _ & _ & _ & ex & hfr & _ & -> & _). destruct hfr; reflexivity.
+          + destruct Hk4 as (_ & _ & -> & _). reflexivity. }
+      rewrite Hfin.
+      eapply R_local; [exact HR|upds|upds|upds|upds|simpl; auto|simpl; auto| |].
+      * apply fiber_rel_running_intro; simpl; auto.
+      * apply (cap_upd_running s m); auto; upds; simpl; auto.
+    + (* try *)
+      simpl. norm_goal R1 R2.
+      eapply R_local; [exact HR|upds|upds|upds|upds|simpl; auto|simpl; auto| |].
+      * apply fiber_rel_running_intro; simpl; auto.
+        rewrite Hhs, Hstk, base_len. reflexivity.
+      * apply (cap_upd_running s m); auto; upds; simpl; auto.
+    + (* end try *)
+      simpl. rewrite Hhs. unfold hrel. destruct (c_handlers (s_co s (s_cur s))) as [|h hs] eqn:Hh; simpl; [reflexivity|].
+      norm_goal R1 R2.
+      eapply R_local; [exact HR|upds|upds|upds|upds|simpl; auto|simpl; auto| |].
+      * apply fiber_rel_running_intro; simpl; auto.
+      * apply (cap_upd_running s m); auto; upds; simpl; auto.
+    + (* capture *)
+      simpl. norm_goal R1 R2.
+      eapply R_local; [exact HR|upds|upds|upds|upds|simpl; auto|simpl; auto| |].
+      * apply fiber_rel_running_intro; simpl; auto.
+      * intros k. destruct (Nat.eq_dec k (s_cur s)) as [->|Hk].
+        -- rewrite !upd_same. simpl. unfold slot_of. rewrite Har. unfold ar; simpl. rewrite I1.
+           repeat split; auto; discriminate.
+        -- rewrite !upd_other by auto. apply R5.
+    + admit.
+    + admit.
+Admitted.
